@@ -56,6 +56,10 @@ where
           return;
         }
       }
+      if !s.is_subscribed() {
+        // the subscriber left while it was handed the latest value
+        return;
+      }
 
       let sbsc = Arc::new(RwLock::new(None::<Subscription>));
       {
